@@ -106,6 +106,21 @@ def run(pid, thorough=False):
             res["broken"].append("the model driver does not build")
         if q.returncode == 0 and d.returncode == 0:
             full_ok = True   # some other property's module is broken, not ours
+    # tie II: the table equalities this property depends on
+    TABLES = {"TablesKeywords": ["C01", "C10", "C11", "C20"], "TablesTokens": ["C01", "C10", "C11"], "TablesLevels": ["C01", "C02"],
+              "TablesBlocks": ["C01", "C03", "C11"], "TablesBuiltins": ["C01", "C17"], "TablesPedantic": ["C20"]}
+    res["table_theorems"] = {}
+    for tmod, pids in TABLES.items():
+        if pid not in pids: continue
+        res["obligations"] += 1
+        tb = subprocess.run(["lake", "build", "PseudoProofs." + tmod], cwd=LEAN, capture_output=True, text=True)
+        if tb.returncode == 0:
+            discharged_tables = res.setdefault("_tables_ok", 0) + 1; res["_tables_ok"] = discharged_tables
+            res["table_theorems"][tmod] = "holds"
+        else:
+            m = re.findall(r"error: ([^\n]*)", tb.stdout + tb.stderr)
+            res["table_theorems"][tmod] = "FAILS"
+            res["broken"].append("table regenerated from the C++ sources disagrees with the model: PseudoProofs.%s does not check (%s)" % (tmod, "; ".join(m[:2])[:300]))
     bad = hygiene()
     if bad:
         res["broken"].append("forbidden constructs in the Lean library: " + "; ".join(bad[:5]))
@@ -145,7 +160,7 @@ def run(pid, thorough=False):
                 discharged += 1
     if full_ok and not bad:
         discharged += 1
-    res["discharged"] = discharged
+    res["discharged"] = discharged + res.pop("_tables_ok", 0)
     if thorough and full_ok:
         res["leanchecker"] = {}
         for m in mods:
